@@ -10,7 +10,7 @@ Definition effect_eqb (a b : effect) : bool :=
   | EDecision n r, EDecision m s => str_eqb n m && Bool.eqb r s
   | EAllow n r, EAllow m s => str_eqb n m && Bool.eqb r s
   | EExists n, EExists m | ELoad n, ELoad m | EMeta n, EMeta m | EIssue n, EIssue m
-  | ESelfWait n, ESelfWait m => str_eqb n m
+  | ESelfWait n, ESelfWait m | EManager n, EManager m => str_eqb n m
   | EEvict i, EEvict j => i =? j
   | _, _ => false
   end.
@@ -120,6 +120,7 @@ Definition get_effect : dec effect :=
    | 4%N => ret (EMeta n)
    | 5%N => ret (EIssue n)
    | 7%N => ret (ESelfWait n)
+   | 8%N => ret (EManager n)
    | _ => fun _ => None
    end)%Z.
 
@@ -132,14 +133,25 @@ Definition get_result : dec result :=
    | _ => fun _ => None
    end)%Z.
 
+Definition get_mgr : dec mgr :=
+  (t <- get_n ;;
+   match t with
+   | 0%N => ret MgrNone
+   | 1%N => ret MgrEmpty
+   | 2%N => i <- get_n ;; ret (MgrCert i)
+   | 3%N => ret MgrErr
+   | _ => fun _ => None
+   end)%Z.
+
 Definition get_wop : dec wop :=
   (t <- get_n ;;
    match t with
    | 0%N =>
-       nm <- get_opt get_str ;; hit <- get_opt get_n ;; ok <- get_bool ;; va <- get_bool ;;
+       nm <- get_opt get_str ;; hit <- get_opt get_n ;; df <- get_opt get_n ;; mg <- get_mgr ;;
+       ok <- get_bool ;; va <- get_bool ;;
        gs <- get_list (get_list get_effect) ;; res <- get_result ;;
        ca <- get_list get_n ;; st <- get_list (get_pair get_str get_n) ;;
-       ret (WHandshake (Hello nm hit ok va) (HsSeen gs res ca st))
+       ret (WHandshake (Hello nm hit df mg ok va) (HsSeen gs res ca st))
    | 1%N => p <- get_policy ;; ret (WEnv (OSetPolicy p))
    | 2%N => n <- get_str ;; ret (WEnv (OStoreDel n))
    | 3%N => n <- get_str ;; c <- get_cert_w ;; ret (WEnv (OStorePut n c))
@@ -186,6 +198,7 @@ Definition put_effect (e : effect) : list Z :=
   | EIssue n => 5%Z :: put_str n
   | EEvict i => [6; Z.of_N i]%Z
   | ESelfWait n => 7%Z :: put_str n
+  | EManager n => 8%Z :: put_str n
   end.
 Fixpoint explain_ops (is_space : N -> bool) (w : world) (ops : list wop) : list Z :=
   match ops with
